@@ -54,7 +54,16 @@ up at call time.  These functions are interposed by wrappers that
   (`term_src="none"`).  Calls from inside `planning` are `plan` events (emitted
   after the call, fields obs, act, r4, next), `counter_update` -> `model_add`
   (fields + same_as_add), `model_update` -> `model` event; the model is a
-  watched component.
+  watched component.  The experience record Dyna-Q keeps for learning is the
+  `Counter` (transition counts + reward lists per (o, a, o')) that
+  `model_update` / planning learn from: before every real `model_update` the
+  WHOLE record it is handed is projected (`_project_counter`: every (o, a, o')
+  whose count is non-zero or whose reward list is non-empty -> obs, act, next,
+  n, rs = rewards * 4) into one `experience` event; LoopTrace (EvExperience)
+  judges that it equals exactly the multiset of environment steps logged so
+  far (RecordNotProduced / RecordCount / RecordReward / RecordMissing).  The
+  discrete ScriptEnv visits the same (state, action) pair with two different
+  successors and different rewards (odd episodes advance two states per step).
 
 cfg: budget = total_timesteps, start = 0, eplimit = 0 (no such parameters),
 warmlearn = warmact = -1, ret_applicable False (tables are returned),
@@ -362,6 +371,21 @@ def run_monte_carlo(sc):
 
 
 # ------------------------------------------------------------------ Dyna-Q
+def _project_counter(counter):
+    """Whole experience record -> list of entries (obs, act, next, n, rs) for every (o, a, o') the record says anything
+    about (count != 0 or a non-empty reward list).  Read-only; reads the nested containers by index only."""
+    tc, rh = counter.transition_counter, counter.reward_history
+    ent = []
+    for o in range(len(tc)):
+        for a in range(len(tc[o])):
+            for n in range(len(tc[o][a])):
+                c = int(tc[o][a][n])
+                rs = [_r4(r) for r in rh[o][a][n]]
+                if c != 0 or rs:
+                    ent.append(dict(obs=decode_obs(o), act=a, next=decode_obs(n), n=c, rs=rs))
+    return ent
+
+
 @routine("dynaq")
 def run_dynaq(sc):
     from rl_blox.algorithm import dynaq as m
@@ -400,6 +424,11 @@ def run_dynaq(sc):
         return real_cnt(counter, obs, act, reward, next_obs)
 
     def model_update(model, counter, obs, act, next_obs):
+        # the whole experience record as it is handed to the model update (what the model / planning learn from)
+        try:
+            rec.emit("experience", env=0, rec=_project_counter(counter), readable=True)
+        except (AttributeError, TypeError, IndexError, KeyError, ValueError) as e:  # another record structure: nothing to judge
+            rec.emit("experience", env=0, rec=[], readable=False, note=f"unreadable:{type(e).__name__}")
         out = real_model(model, counter, obs, act, next_obs)
         st["model"] = out
         rec.emit("model", env=0, obs=decode_obs(obs), act=_int(act), next=decode_obs(next_obs))
